@@ -292,7 +292,10 @@ func fFan(c *CheckRun, kind int, nSym int, variants int, full bool) []histB {
 			} else if sh.low == 2 {
 				label = fmt.Sprintf("F-fan m=%d from=%d (largest deleted) v=%d", sh.m, sh.from, v)
 			}
-			big := sh.m > 17 || sh.from > 17
+			// two symbolic updates on a node48 are 256 x 256 concretised index stores, each followed by the walker
+			// (measured: > 3 CPU-hours for one scenario): bases that touch node48 get the A/B/C patterns then
+			// (the same when two symbolic inserts can carry a node16 over its limit: m >= 15)
+			big := sh.m > 17 || sh.from > 17 || (nSym > 1 && (sh.m+1 >= 16 || sh.from > 16))
 			if big {
 				someByte := 0
 				for _, o := range base {
